@@ -232,12 +232,13 @@ func (server *Server) Start() {
 							break
 						}
 						ent := evictList.Back()
-						if ent != nil {
-							evictList.Remove(ent)
-							kv := ent.Value.(*response)
-							delete(cache, kv.key)
-							totalSize -= kv.size
+						if ent == nil {
+							break
 						}
+						evictList.Remove(ent)
+						kv := ent.Value.(*response)
+						delete(cache, kv.key)
+						totalSize -= kv.size
 					}
 					server.metrics.updateCacheStats(totalSize, len(cache))
 				}
